@@ -195,6 +195,19 @@ func colorMain(args []string) error {
 		find("random", tcell.NewHexColor(int32(v)), v, pal, pv)
 	}
 	find("empty", tcell.NewHexColor(0x123456), 0x123456, []tcell.Color{}, []int{})
+	// FromImageColor on opaque colours with 16-bit channels: the 8-bit value of a channel is its high byte, as the
+	// image/color models convert (a tcell colour holds 8 bits per channel)
+	for i := 0; i < 600; i++ {
+		r, g, b := rng.Intn(1<<16), rng.Intn(1<<16), rng.Intn(1<<16)
+		if i < 256 {
+			r, g, b = i<<8, i<<8|0xff, (255-i)<<8|i // low byte below, above and around the high byte
+		}
+		y := rng.Intn(1 << 16)
+		emit(trace.Ev{"ev": "Img16", "r": r, "g": g, "b": b, "y": y,
+			"rgba64": int(tcell.FromImageColor(color.RGBA64{R: uint16(r), G: uint16(g), B: uint16(b), A: 0xffff}).Hex()),
+			"nrgba64": int(tcell.FromImageColor(color.NRGBA64{R: uint16(r), G: uint16(g), B: uint16(b), A: 0xffff}).Hex()),
+			"gray16": int(tcell.FromImageColor(color.Gray16{Y: uint16(y)}).Hex())})
+	}
 	_ = tcx.Color
 	if err := tw.Close(); err != nil {
 		return err
